@@ -637,8 +637,14 @@ where
                     Some((idx_backup, cur_backup)) => {
                         if c <  cur_backup {
                             // c is preferred over current backup
-                            // check if it is not the same route as 'best'
-                            if best.as_ref().map(|t| &t.1) != Some(&c) {
+                            // check if it is not the same route as 'best',
+                            // again in terms of content (see above), not in
+                            // terms of path preference: a candidate tied with
+                            // 'best' but with different content is a proper
+                            // backup.
+                            if best.as_ref().map(|t| t.1.borrow().inner())
+                                != Some(c.borrow().inner())
+                            {
                                 backup = Some((idx, c));
                                 continue;
                             }
